@@ -33,6 +33,7 @@
 #include "soplex/spxdefaultrt.h"
 #include "soplex/spxstarter.h"
 #include "soplex/spxout.h"
+#include "soplex/verifhooks.h"
 
 #define SOPLEX_MAXCYCLES 400
 #define SOPLEX_MAXSTALLS 10000
@@ -500,6 +501,7 @@ typename SPxSolverBase<R>::Status SPxSolverBase<R>::solve(volatile bool* interru
                   }
                }
 
+               SOPLEX_VERIF_POINT(SOPLEX_VERIF_SITE_ENTER_PIVOT);
                /* check if we have iterations left */
                if(maxIters >= 0 && iterations() >= maxIters)
                {
@@ -841,6 +843,7 @@ typename SPxSolverBase<R>::Status SPxSolverBase<R>::solve(volatile bool* interru
                   }
                }
 
+               SOPLEX_VERIF_POINT(SOPLEX_VERIF_SITE_LEAVE_PIVOT);
                /* check if we have iterations left */
                if(maxIters >= 0 && iterations() >= maxIters)
                {
